@@ -97,7 +97,8 @@ impl Driver for ProbeDriver {
       if c == 0 && !self.interrupted_once { self.interrupted_once = true; PollResult::Interrupted }
       else if c <= 4 && (timeout.is_some() || self.r.below(4) == 0) {
         // a real time-out happens after the time asked for; without a time-out asked for it is spurious
-        if let Some(t) = timeout { thread::sleep(t.min(Duration::from_millis(8))); }
+        // ... and now and then the wake-up is late by more than a whole interval (a stalled process): the schedule must not shift
+        if let Some(t) = timeout { thread::sleep(t.min(Duration::from_millis(8))); if self.r.below(5) == 0 { thread::sleep(Duration::from_millis(3 + self.r.below(4) as u64)); } }
         PollResult::TimedOut
       }
       else {
